@@ -16,7 +16,7 @@
 use std::io::{self, BufRead, Write};
 use std::panic;
 
-use math::{fields::f128, fields::f62, fields::f64 as g64, ExtensibleField, FieldElement, StarkField};
+use math::{fields::f128, fields::f62, fields::f64 as g64, fields::CubeExtension, fields::QuadExtension, ExtensibleField, ExtensionOf, FieldElement, StarkField};
 use utils::{AsBytes, Randomizable};
 
 #[path = "/repo/crypto/src/hash/mds/mds_f64_12x12.rs"]
@@ -158,6 +158,65 @@ fn generic<E: Raw>(op: &str, n: &[u128]) -> Option<Result<String, String>> {
             let r = <E as ExtensibleField<3>>::frobenius([e(0), e(1), e(2)]);
             fmt(&[r[0].inner_u(), r[1].inner_u(), r[2].inner_u()])
         }),
+        // public generic wrappers QuadExtension<E> / CubeExtension<E>
+        "quad_add" | "quad_sub" | "quad_mul" => need(n, 4).map(|_| {
+            let (x, y) = (QuadExtension::<E>::new(e(0), e(1)), QuadExtension::<E>::new(e(2), e(3)));
+            let r = match op {
+                "quad_add" => x + y,
+                "quad_sub" => x - y,
+                _ => x * y,
+            }
+            .to_base_elements();
+            fmt(&[r[0].inner_u(), r[1].inner_u()])
+        }),
+        "quad_neg" | "quad_double" | "quad_square" | "quad_conjugate" => need(n, 2).map(|_| {
+            let x = QuadExtension::<E>::new(e(0), e(1));
+            let r = match op {
+                "quad_neg" => -x,
+                "quad_double" => x.double(),
+                "quad_square" => x.square(),
+                _ => x.conjugate(),
+            }
+            .to_base_elements();
+            fmt(&[r[0].inner_u(), r[1].inner_u()])
+        }),
+        "quad_mul_base" => need(n, 3).map(|_| {
+            let r = QuadExtension::<E>::new(e(0), e(1)).mul_base(e(2)).to_base_elements();
+            fmt(&[r[0].inner_u(), r[1].inner_u()])
+        }),
+        "quad_from_base" => need(n, 1).map(|_| {
+            let r = QuadExtension::<E>::from(e(0)).to_base_elements();
+            fmt(&[r[0].inner_u(), r[1].inner_u()])
+        }),
+        "cube_add" | "cube_sub" | "cube_mul" => need(n, 6).map(|_| {
+            let (x, y) = (CubeExtension::<E>::new(e(0), e(1), e(2)), CubeExtension::<E>::new(e(3), e(4), e(5)));
+            let r = match op {
+                "cube_add" => x + y,
+                "cube_sub" => x - y,
+                _ => x * y,
+            }
+            .to_base_elements();
+            fmt(&[r[0].inner_u(), r[1].inner_u(), r[2].inner_u()])
+        }),
+        "cube_neg" | "cube_double" | "cube_square" | "cube_conjugate" => need(n, 3).map(|_| {
+            let x = CubeExtension::<E>::new(e(0), e(1), e(2));
+            let r = match op {
+                "cube_neg" => -x,
+                "cube_double" => x.double(),
+                "cube_square" => x.square(),
+                _ => x.conjugate(),
+            }
+            .to_base_elements();
+            fmt(&[r[0].inner_u(), r[1].inner_u(), r[2].inner_u()])
+        }),
+        "cube_mul_base" => need(n, 4).map(|_| {
+            let r = CubeExtension::<E>::new(e(0), e(1), e(2)).mul_base(e(3)).to_base_elements();
+            fmt(&[r[0].inner_u(), r[1].inner_u(), r[2].inner_u()])
+        }),
+        "cube_from_base" => need(n, 1).map(|_| {
+            let r = CubeExtension::<E>::from(e(0)).to_base_elements();
+            fmt(&[r[0].inner_u(), r[1].inner_u(), r[2].inner_u()])
+        }),
         "from_random_bytes" => {
             // args: byte values (any count)
             let b: Vec<u8> = n.iter().map(|x| *x as u8).collect();
@@ -210,6 +269,14 @@ fn f64_ops(op: &str, n: &[u128]) -> Result<String, String> {
             Ok(fmt(&[r.inner() as u128, r.as_int() as u128, (r == full) as u128, full.as_int() as u128, full.inner() as u128]))
         },
         "exp7" => need(n, 1).map(|_| fmt(&[e(0).exp7().inner() as u128])),
+        "double" => {
+            need(n, 1)?;
+            let x = e(0);
+            let d = x.double();
+            let s = x + x;
+            // double inner, (double == x + x) under ==, inner of x + x, as_int of both
+            Ok(fmt(&[d.inner() as u128, (d == s) as u128, s.inner() as u128, d.as_int() as u128, s.as_int() as u128]))
+        },
         "as_int_inherent" => need(n, 1).map(|_| fmt(&[E::as_int(&e(0)) as u128])),
         "from_bool" => need(n, 1).map(|_| fmt(&[E::from(n[0] != 0).inner() as u128])),
         "from_u8" => need(n, 1).map(|_| fmt(&[E::from(n[0] as u8).inner() as u128])),
@@ -281,6 +348,7 @@ fn f128_ops(op: &str, n: &[u128]) -> Result<String, String> {
         },
         // the cubic extension of f128 is unimplemented!() by design: do not route ext3_* here
         "ext3_mul" | "ext3_square" | "ext3_mul_base" | "ext3_frobenius" => Err("f128 has no cubic extension".into()),
+        x if x.starts_with("cube_") => Err("f128 has no cubic extension".into()),
         _ => generic::<E>(op, n).unwrap_or_else(|| Err(format!("unknown op {op}"))),
     }
 }
@@ -385,6 +453,67 @@ fn rp_ops(which: &str, op: &str, n: &[u128]) -> Result<String, String> {
             }
             crypto::hashers::RpJive64_256::apply_round(&mut s, n[8] as usize);
             Ok(fmt(&s.iter().map(|x| x.inner() as u128).collect::<Vec<_>>()))
+        },
+        // args: the 12 (8) internal values of the state AFTER the S-box of the first half round (= the input of the first
+        // mds_multiply) + the round number. The pre-image under x -> x^7 is computed with the public `exp`, then the PUBLIC
+        // apply_round is run on it and compared (under ==) with a reference built from public field operations on
+        // canonical values and the public constants MDS / ARK1 / ARK2.
+        // answer: #positions differing under ==, #positions of the real output with internal value >= M, then the real output
+        ("rp64", "round_check") => {
+            need(n, 13)?;
+            type E = g64::BaseElement;
+            const INV7: u64 = 10540996611094048183;
+            let round = n[12] as usize;
+            let y: Vec<E> = (0..12).map(|i| E::from_mont(n[i] as u64)).collect();
+            let mut state = [E::ZERO; 12];
+            for i in 0..12 {
+                state[i] = y[i].exp(INV7);
+            }
+            crypto::hashers::Rp64_256::apply_round(&mut state, round);
+            let m = crypto::hashers::Rp64_256::MDS;
+            let canon = |v: E| E::new(v.as_int());
+            let mds = |s: &Vec<E>| -> Vec<E> {
+                (0..12).map(|i| { let mut acc = E::ZERO; for j in 0..12 { acc += m[i][j] * s[j]; } acc }).collect()
+            };
+            let mut r: Vec<E> = y.iter().map(|v| canon(*v)).collect();
+            r = mds(&r);
+            for i in 0..12 { r[i] += crypto::hashers::Rp64_256::ARK1[round][i]; }
+            r = r.iter().map(|v| v.exp(INV7)).collect();
+            r = mds(&r);
+            for i in 0..12 { r[i] += crypto::hashers::Rp64_256::ARK2[round][i]; }
+            let diff = (0..12).filter(|&i| state[i] != r[i]).count() as u128;
+            let noncanon = state.iter().filter(|v| v.inner() >= 0xFFFFFFFF00000001).count() as u128;
+            let mut out = vec![diff, noncanon];
+            out.extend(state.iter().map(|x| x.inner() as u128));
+            Ok(fmt(&out))
+        },
+        ("rpjive", "round_check") => {
+            need(n, 9)?;
+            type E = g64::BaseElement;
+            const INV7: u64 = 10540996611094048183;
+            let round = n[8] as usize;
+            let y: Vec<E> = (0..8).map(|i| E::from_mont(n[i] as u64)).collect();
+            let mut state = [E::ZERO; 8];
+            for i in 0..8 {
+                state[i] = y[i].exp(INV7);
+            }
+            crypto::hashers::RpJive64_256::apply_round(&mut state, round);
+            let m = crypto::hashers::RpJive64_256::MDS;
+            let canon = |v: E| E::new(v.as_int());
+            let mds = |s: &Vec<E>| -> Vec<E> {
+                (0..8).map(|i| { let mut acc = E::ZERO; for j in 0..8 { acc += m[i][j] * s[j]; } acc }).collect()
+            };
+            let mut r: Vec<E> = y.iter().map(|v| canon(*v)).collect();
+            r = mds(&r);
+            for i in 0..8 { r[i] += crypto::hashers::RpJive64_256::ARK1[round][i]; }
+            r = r.iter().map(|v| v.exp(INV7)).collect();
+            r = mds(&r);
+            for i in 0..8 { r[i] += crypto::hashers::RpJive64_256::ARK2[round][i]; }
+            let diff = (0..8).filter(|&i| state[i] != r[i]).count() as u128;
+            let noncanon = state.iter().filter(|v| v.inner() >= 0xFFFFFFFF00000001).count() as u128;
+            let mut out = vec![diff, noncanon];
+            out.extend(state.iter().map(|x| x.inner() as u128));
+            Ok(fmt(&out))
         },
         _ => Err(format!("unknown op {which} {op}")),
     }
